@@ -120,7 +120,7 @@ func (parser *syslogParser) Parse(input []byte, timestamp time.Time) *base.LogRe
 		return nil
 	}
 
-	if val[len(val)-2:] != ">1" {
+	if len(val) < 2 || val[len(val)-2:] != ">1" {
 		parser.onMalformed(record, fmt.Sprintf("invalid syslog pri '%s'", val), input)
 		return nil
 	}
@@ -159,11 +159,14 @@ func (parser *syslogParser) Parse(input []byte, timestamp time.Time) *base.LogRe
 	}
 
 	// all the rest of message goes to the "log" message field
+	messageCut := false
 	if len(remaining) > defs.InputLogMaxMessageBytes {
 		parser.onOverflow(input)
 		remaining = remaining[:defs.InputLogMaxMessageBytes]
+		messageCut = true
 	}
-	if record.RawLength >= defs.InputLogMaxRecordBytes {
+	// clean up the end if it was cut here or (possibly) by the input due to record length limit
+	if messageCut || record.RawLength >= defs.InputLogMaxRecordBytes {
 		remaining = util.StringFromBytes(
 			util.CleanUTF8(util.BytesFromString(remaining)),
 		)
